@@ -207,8 +207,21 @@ Fixpoint c05_silence (c : scfg) (prev : list snap_entry) (h : list round) : bool
      | _, _ => true
      end) && c05_silence c (if r_has_snap r then r_snap r else prev) rest
   end.
+(* C05: "no message from it or from anyone else shortens that": a binding (or pending offer) listed after one round is
+   still listed after the next - same address, same client, running at least as long - unless it has run out by then *)
+Fixpoint c05_monotone (prev : list snap_entry) (h : list round) : bool :=
+  match h with
+  | [] => true
+  | r :: rest =>
+    (if r_has_snap r then
+       forallb (fun e => sn_perm e || (sn_until e <? r_tq r)%Z ||
+                         existsb (fun e' => (sn_ip e' =? sn_ip e) && bytes_eqb (sn_duid e') (sn_duid e) &&
+                                            (sn_perm e' || (sn_until e <=? sn_until e')%Z)) (r_snap r)) prev
+     else true) && c05_monotone (if r_has_snap r then r_snap r else prev) rest
+  end.
 Definition mon_C05 (c : scfg) (h : list round) : bool :=
-  c05_scan c [] (events c h) && c05_hold c [] h && forallb ack_reserved h && c05_silence c (snap_of 0%Z (initial_table c)) h.
+  c05_scan c [] (events c h) && c05_hold c [] h && forallb ack_reserved h && c05_silence c (snap_of 0%Z (initial_table c)) h &&
+  c05_monotone (snap_of 0%Z (initial_table c)) h.
 
 (* C06: envelope of every reply *)
 Definition c06_round (c : scfg) (r : round) : bool :=
